@@ -424,8 +424,9 @@ SECP256K1_INLINE static int secp256k1_rangeproof_rewind_inner(const secp256k1_ha
     }
     skip1 = rsizes[rings - 1] - 1 - j;
     skip2 = ((value >> ((rings - 1) << 1)) & 3);
-    if (skip1 == skip2) {
-        /*Value is in wrong position.*/
+    if (skip1 == skip2 || skip2 >= rsizes[rings - 1]) {
+        /*Value is in wrong position, or its top digit lies outside the last ring
+         * (whose s, e and nonce entries past rsizes[rings - 1] were never written).*/
         if (mlen) {
             *mlen = 0;
         }
